@@ -1,5 +1,5 @@
 (* CliProps.v — the exit-code folds of validate and test encode the outcome (C06, C07, C12 use these). *)
-From Coq Require Import Lia.
+From Coq Require Import Lia Permutation.
 From GV.Model Require Import Cli.
 Open Scope Z_scope.
 
@@ -417,3 +417,84 @@ Example cli_example :
   exit_status (validate_exit VStructured true 2 [RParsed [DPass; DFail]; RParseErr]) = 19 /\
   exit_status (validate_exit VPlain true 1 [RParsed [DErr]]) = 255.
 Proof. vm_compute. repeat split. Qed.
+
+(* ---- C12: the exit status is a function of three facts about the outcome matrix ---- *)
+Theorem exit_determined : forall m n rs n' rs',
+  well_shaped n rs = true -> well_shaped n' rs' = true ->
+  all_parsed rs = all_parsed rs' -> some_fail rs = some_fail rs' -> some_err rs = some_err rs' ->
+  (m <> VPlain \/ all_parsed rs = true \/ some_fail rs = false) ->
+  exit_status (validate_exit m true n rs) = exit_status (validate_exit m true n' rs').
+Proof.
+  intros m n rs n' rs' Hw Hw' Hp Hf He Hcase.
+  destruct m.
+  - destruct Hcase as [Hc|Hc]; [congruence|].
+    unfold validate_exit. cbn [negb].
+    destruct (some_err rs) eqn:Eerr.
+    + rewrite !plain_loop_err by congruence. reflexivity.
+    + destruct (plain_loop_inv rs success_status_code Eerr) as (c & Hc1 & Hc3 & H0 & H19 & H5); [left; reflexivity|].
+      assert (Eerr' : some_err rs' = false) by congruence.
+      destruct (plain_loop_inv rs' success_status_code Eerr') as (c' & Hc1' & Hc3' & H0' & H19' & H5'); [left; reflexivity|].
+      rewrite Hc1, Hc1'. cbn [exit_status]. f_equal.
+      rewrite <- Hp, <- Hf in *. codes. unfold code3 in *.
+      destruct (all_parsed rs), (some_fail rs);
+        destruct Hc3 as [->|[->| ->]], Hc3' as [->|[->| ->]]; try reflexivity; exfalso;
+        intuition (try discriminate; try lia).
+  - rewrite !structured_exit_spec by assumption. unfold structured_spec. now rewrite Hp, Hf, He.
+  - rewrite !junit_exit_spec by assumption. unfold junit_spec. now rewrite Hp, Hf, He.
+Qed.
+
+Lemma existsb_perm : forall A (f : A -> bool) l l', Permutation l l' -> existsb f l = existsb f l'.
+Proof.
+  intros A f l l' H. induction H as [|x l l' H IH|x y l|l l' l'' H1 IH1 H2 IH2]; cbn; try congruence.
+  - destruct (f x), (f y); reflexivity.
+Qed.
+Lemma forallb_perm : forall A (f : A -> bool) l l', Permutation l l' -> forallb f l = forallb f l'.
+Proof.
+  intros A f l l' H. induction H as [|x l l' H IH|x y l|l l' l'' H1 IH1 H2 IH2]; cbn; try congruence.
+  - destruct (f x), (f y); reflexivity.
+Qed.
+
+(* the order in which the rules files are given does not change the exit status (outside the mixed
+   parse-error + FAIL case of the plain loop, which the statement leaves at "non-zero") *)
+Theorem rules_order_irrelevant : forall m n rs rs',
+  Permutation rs rs' -> well_shaped n rs = true ->
+  (m <> VPlain \/ all_parsed rs = true \/ some_fail rs = false) ->
+  exit_status (validate_exit m true n rs) = exit_status (validate_exit m true n rs').
+Proof.
+  intros m n rs rs' Hperm Hw Hc. apply exit_determined; auto.
+  - unfold well_shaped in *. now rewrite <- (forallb_perm _ _ _ _ Hperm).
+  - unfold all_parsed. now apply forallb_perm.
+  - unfold some_fail. now apply existsb_perm.
+  - unfold some_err. now apply existsb_perm.
+Qed.
+
+(* the order of the data files: every row is permuted by the same permutation *)
+Definition permute_rows (f : list data_outcome -> list data_outcome) (rs : list rules_outcome) :=
+  map (fun r => match r with RParsed l => RParsed (f l) | x => x end) rs.
+
+Lemma all_parsed_permute : forall f rs, all_parsed (permute_rows f rs) = all_parsed rs.
+Proof.
+  intros f rs. unfold all_parsed, permute_rows. induction rs as [|r rs IH]; [reflexivity|].
+  cbn [map forallb]. rewrite IH. now destruct r.
+Qed.
+Lemma some_permute : forall (p : data_outcome -> bool) f rs, (forall l, Permutation l (f l)) ->
+  existsb (fun r => existsb p (row r)) (permute_rows f rs) = existsb (fun r => existsb p (row r)) rs.
+Proof.
+  intros p f rs Hf. unfold permute_rows. induction rs as [|r rs IH]; [reflexivity|].
+  cbn [map existsb]. rewrite IH. destruct r; try reflexivity.
+  cbn [row]. now rewrite <- (existsb_perm _ p _ _ (Hf per_data)).
+Qed.
+
+Theorem data_order_irrelevant : forall m n rs f,
+  (forall l, Permutation l (f l)) -> well_shaped n rs = true ->
+  (m <> VPlain \/ all_parsed rs = true \/ some_fail rs = false) ->
+  exit_status (validate_exit m true n rs) = exit_status (validate_exit m true n (permute_rows f rs)).
+Proof.
+  intros m n rs f Hf Hw Hc. apply exit_determined; auto.
+  - unfold well_shaped, permute_rows in *. rewrite forallb_forall in *. intros x Hx.
+    apply in_map_iff in Hx as (r & <- & Hr). specialize (Hw r Hr). destruct r; auto.
+    rewrite <- (Permutation_length (Hf per_data)). exact Hw.
+  - now rewrite all_parsed_permute.
+  - unfold some_fail. now rewrite some_permute.
+  - unfold some_err. now rewrite some_permute.
+Qed.
